@@ -78,6 +78,12 @@ def gen_case(rng, tier, index):
     if rng.random() < 0.45:
         r = rng.random()
         return _shape_case(rng) if r < 0.4 else (_shape_failfast(rng) if r < 0.8 else _shape_fingerprint(rng))
+    if rng.random() < 0.2:
+        # --checkout-only: only checkouts run, but what a checkout needs (its tools) is built for real
+        model = projgen.gen_valid_project(rng, nmin=4, nmax=7, features={"checkoutscript", "tools", "checkouttools", "diamond"} |
+                                          set(rng.sample(["vars", "forward", "twins", "provideDeps"], rng.randint(0, 2))))
+        return {"layer": 1, "model": model, "jobs": rng.choice([1, 2, 2, 3, 4]), "keep_going": False, "checkout_only": True,
+                "sched_seed": rng.getrandbits(32), "durations": rng.choice([[0, 0.001, 1, 2], [1], [0, 1]])}
     model = projgen.gen_valid_project(rng, nmin=4, nmax=8,
                                       features=set(rng.sample(["checkoutscript", "diamond", "tools", "vars", "provideDeps",
                                                                "import", "forward", "nobuild", "twins", "twins", "fingerprint", "fingerprint"],
@@ -378,7 +384,7 @@ def _layer1(case, stats):
         if f:
             cfg["script_faults"] = [{"nth": None if f.get("match") else f["nth"], "match": f.get("match"),
                                      "at": f["at"], "kind": "exit"}]
-        argv = ["dev", "-j", str(N)] + (["-k"] if case["keep_going"] else []) + ["root"]
+        argv = ["dev", "-j", str(N)] + (["-k"] if case["keep_going"] else []) + (["--checkout-only"] if case.get("checkout_only") else []) + ["root"]
         r = buildsim.bob(proj, argv, cfg)
         ev = r.events
         fired = [e for e in ev if e[0] == "script-fault-fired"]
@@ -390,7 +396,10 @@ def _layer1(case, stats):
             return {"kind": "build-deadlock", "detail": "event loop starved: -j%d %s" % (N, r.output[-400:])}, log, False
         exit_ev = [e for e in ev if e[0] == "EXIT"]
         max_running = exit_ev[0][4] if exit_ev else 0
-        log = [(e[0], e[2], e[3][1] if e[0].startswith("sub") else e[3]) for e in ev if e[0] in ("sub-start", "sub-end", "exec-start", "exec-end")]
+        # (scratch paths contain the pid: keep them out of the digest)
+        base = os.path.dirname(top)
+        norm = lambda x: x.replace(top, "TOP").replace(base, "BASE") if isinstance(x, str) else x
+        log = [(e[0], e[2], norm(e[3][1] if e[0].startswith("sub") else e[3])) for e in ev if e[0] in ("sub-start", "sub-end", "exec-start", "exec-end")]
         # (a)
         if max_running > N:
             return {"kind": "job-limit-exceeded", "detail": "%d jobs ran concurrently with -j%d" % (max_running, N)}, log, True
@@ -442,6 +451,10 @@ def _layer1(case, stats):
                 started[d] = e[2]
                 running.add(d)
                 for dep in ws_deps.get(d, ()):
+                    if dep not in ended and dep not in running:
+                        # (the workspace is fresh: whatever a step needs has to be produced in this invocation)
+                        return {"kind": "step-started-before-dependency-finished",
+                                "detail": "%s started although its dependency %s was never executed" % (d, dep)}, log, True
                     if dep in running:
                         return {"kind": "step-started-before-dependency-finished",
                                 "detail": "%s started while %s still runs" % (d, dep)}, log, True
@@ -467,6 +480,11 @@ def _layer1(case, stats):
             for d in started:
                 if d != failed_ws and depends_on(d, failed_ws) and started[d] > started.get(failed_ws, 0):
                     pass    # already covered by (b) at start time
+        if case.get("checkout_only"):
+            stats.inc("checkout_only_builds")
+            if failed_ws is None and r.rc != 0:
+                return {"kind": "parallel-build-failed", "detail": "--checkout-only -j%d rc=%d: %s" % (N, r.rc, r.output[-700:])}, log, True
+            return None, log, max_running > 1
         oracle = buildsim.CleanOracle(top, True)
         clean = oracle.get(model)
         if clean["rc"] != 0:
